@@ -114,7 +114,7 @@ func modelValue(v string) string {
 // cleanModel maps "p_name!12" / "|p_r.Mode!3|" to "name" / "r.Mode"
 func cleanModel(m map[string]string) map[string]string {
 	out := map[string]string{}
-	re := regexp.MustCompile(`^\|?p_(.*?)!\d+\|?$`)
+	re := regexp.MustCompile(`^\|?p_(.*?)(?:!\d+)?\|?$`)
 	for k, v := range m {
 		if mm := re.FindStringSubmatch(k); mm != nil {
 			out[mm[1]] = modelValue(v)
@@ -157,9 +157,11 @@ func handleFailure(P *Program, prop string, cfg *PropConfig, o *Obl, c *Ctx) str
 		}
 		tmp := filepath.Join(scratch(), "replay_"+sanitize(o.Name)+"_test.go")
 		os.WriteFile(tmp, []byte(src), 0o644)
-		ok, out, secs := runInjectedTest(P, tmp, rs.PkgDir, rs.Run, rs.Ext, 120)
+		status, out, secs := runInjectedTest(P, tmp, rs.PkgDir, rs.Run, rs.Ext, 120)
 		ran = true
-		fmt.Fprintf(&sb, "---- replay on the real code: %s in %s (%.1fs): passed=%v\n---- replay test source\n%s\n---- replay output\n%s\n", rs.Run, rs.PkgDir, secs, ok, src, truncate(out, 8000))
+		ok := status != "fail"
+		fmt.Fprintf(&sb, "---- replay on the real code: %s in %s (%.1fs): result=%s\n---- replay test source\n%s\n---- replay output\n%s\n", rs.Run, rs.PkgDir, secs, status, src, truncate(out, 8000))
+		_ = status
 		if !ok {
 			confirmed = true
 		}
@@ -221,7 +223,7 @@ func renderTemplate(path string, model map[string]string, o *Obl) (string, error
 
 // runInjectedTest runs an in-package test file against the real code using -overlay
 // (nothing is written into the repository).
-func runInjectedTest(P *Program, testFile, pkgDir, run string, external bool, timeoutS int) (bool, string, float64) {
+func runInjectedTest(P *Program, testFile, pkgDir, run string, external bool, timeoutS int) (string, string, float64) {
 	target := filepath.Join(P.Repo, pkgDir, "verif_injected_test.go")
 	ov := map[string]any{"Replace": map[string]string{target: testFile}}
 	ovPath := filepath.Join(scratch(), fmt.Sprintf("ov_%d.json", time.Now().UnixNano()))
@@ -230,28 +232,38 @@ func runInjectedTest(P *Program, testFile, pkgDir, run string, external bool, ti
 	defer os.Remove(ovPath)
 	ctx, cancel := context.WithTimeout(context.Background(), time.Duration(timeoutS+30)*time.Second)
 	defer cancel()
-	goBin := "/usr/bin/go"
-	if _, err := os.Stat(goBin); err != nil {
-		goBin = "go"
-	}
-	args := []string{"test", "-mod=mod", "-tags=verif", "-overlay", ovPath, "-vet=off", "-count=1", fmt.Sprintf("-timeout=%ds", timeoutS), "-run", run, "./" + pkgDir}
-	cmd := exec.CommandContext(ctx, "bash", "-c", "ulimit -v 8000000; exec \"$0\" \"$@\"", goBin)
+	goBin, env := replayToolchain(P.Repo)
+	args := []string{"test", "-mod=mod", "-tags=verif", "-overlay", ovPath, "-vet=off", "-count=1", "-v", fmt.Sprintf("-timeout=%ds", timeoutS), "-run", run, "./" + pkgDir}
+	cmd := exec.CommandContext(ctx, "bash", "-c", "ulimit -v 12000000; exec \"$0\" \"$@\"", goBin)
 	cmd.Args = append(cmd.Args, args...)
 	cmd.Dir = P.Repo
-	cmd.Env = replayEnv()
+	cmd.Env = env
 	var out bytes.Buffer
 	cmd.Stdout = &out
 	cmd.Stderr = &out
 	t0 := time.Now()
 	err := cmd.Run()
-	return err == nil, out.String(), time.Since(t0).Seconds()
+	secs := time.Since(t0).Seconds()
+	o := out.String()
+	switch {
+	case err == nil && strings.Contains(o, "--- PASS"):
+		return "pass", o, secs
+	case strings.Contains(o, "--- FAIL") || strings.Contains(o, "panic:") || strings.Contains(o, "fatal error:") || strings.Contains(o, "test timed out"):
+		return "fail", o, secs
+	case err == nil:
+		return "error", o + "\n(no test ran)", secs
+	}
+	return "error", o, secs
 }
 
-// replayEnv: the repository's own toolchain (go.mod's go directive selects it offline)
-func replayEnv() []string {
+// replayToolchain: the repository's own toolchain (the one go.mod's go directive names,
+// taken from the module cache) so that replays run exactly what the test suite runs.
+func replayToolchain(repo string) (string, []string) {
 	var env []string
 	for _, e := range os.Environ() {
-		if strings.HasPrefix(e, "GOTOOLCHAIN=") || strings.HasPrefix(e, "GOFLAGS=") || strings.HasPrefix(e, "PATH=") {
+		k, _, _ := strings.Cut(e, "=")
+		switch k {
+		case "GOTOOLCHAIN", "GOFLAGS", "PATH", "GOSUMDB", "GONOSUMDB", "GONOSUMCHECK", "GOPROXY":
 			continue
 		}
 		env = append(env, e)
@@ -260,8 +272,30 @@ func replayEnv() []string {
 	if path == "" {
 		path = "/usr/local/go/bin:/usr/local/sbin:/usr/local/bin:/usr/sbin:/usr/bin:/sbin:/bin:/root/go/bin"
 	}
-	env = append(env, "PATH="+path, "GOFLAGS=-mod=mod", "GOPROXY=off", "GOSUMDB=off", "GOTOOLCHAIN=auto")
-	return env
+	ver := ""
+	if b, err := os.ReadFile(filepath.Join(repo, "go.mod")); err == nil {
+		for _, l := range strings.Split(string(b), "\n") {
+			f := strings.Fields(l)
+			if len(f) == 2 && f[0] == "go" {
+				ver = f[1]
+			}
+			if len(f) == 2 && f[0] == "toolchain" {
+				ver = strings.TrimPrefix(f[1], "go")
+				break
+			}
+		}
+	}
+	modcache := os.Getenv("GOMODCACHE")
+	if modcache == "" {
+		modcache = "/root/go/pkg/mod"
+	}
+	tc := filepath.Join(modcache, "golang.org", "toolchain@v0.0.1-go"+ver+".linux-amd64", "bin", "go")
+	if _, err := os.Stat(tc); err == nil && ver != "" {
+		env = append(env, "PATH="+filepath.Dir(tc)+":"+path, "GOFLAGS=-mod=mod", "GOPROXY=off", "GOTOOLCHAIN=local")
+		return tc, env
+	}
+	env = append(env, "PATH="+path, "GOFLAGS=-mod=mod", "GOPROXY=off", "GOTOOLCHAIN=auto")
+	return "/usr/bin/go", env
 }
 
 func rerunReplay(path string) int {
